@@ -2,6 +2,7 @@ package engine
 
 import (
 	"fmt"
+	"strings"
 	"time"
 
 	"apdsim/plan"
@@ -21,6 +22,13 @@ func addStat(k string, v uint64) { procStats[k] += v }
 
 func ProcessStats() map[string]uint64 {
 	procStats["yield_sites"] = uint64(len(apd.VerifSites))
+	var bits uint64
+	for _, b := range sPairBits {
+		for ; b != 0; b &= b - 1 {
+			bits++
+		}
+	}
+	procStats["site_pairs_this_process"] = bits
 	if globalSnap != nil {
 		procStats["package_vars"] = uint64(globalSnap.NumVars())
 	}
@@ -31,7 +39,7 @@ func ProcessStats() map[string]uint64 {
 func Generate(wl, mode string, seed, run uint64, tier string) *plan.Plan {
 	switch wl {
 	case "c18":
-		return GenC18(seed, run, tier)
+		return GenC18(seed, run, tier, mode)
 	case "reg":
 		return GenReg(seed, run, tier, mode)
 	case "trap":
@@ -116,4 +124,18 @@ func SamplePlan(p *plan.Plan) interface{} {
 		q.BigSteps = q.BigSteps[:8]
 	}
 	return q
+}
+
+// Poisoned reports whether a run found the process-wide state of the package
+// under test modified; such a process must not execute further runs.
+func Poisoned(res *plan.Result) bool {
+	if res.Stats["globals_changed"] > 0 {
+		return true
+	}
+	for _, v := range res.Violations {
+		if strings.Contains(v.Class, "globals-modified") {
+			return true
+		}
+	}
+	return false
 }
